@@ -147,15 +147,20 @@ func indexOf(s, sub string) int {
 func init() {
 	Register(&Prop{
 		ID:    "C13",
-		Rule:  "one execution = one fully populated value (every leaf ∈ {passing, failing t1, failing t2, failing both}, never zero or blank; slices of 1–2 elements; pointers set) of a core skeleton with ≤k focus units ranging over configuration × value, run twice on the real code: Validate in place, and Parse of the value rendered as the map it would be decoded from into a fresh destination, under every field visit order; non-trivial = deviating case; distinct = distinct (skeleton, issue set)",
+		Rule:  "one execution = one fully populated value (every leaf ∈ {passing, failing t1, failing t2, failing both}, never zero or blank; slices of 1–2 elements; pointers set) of a core skeleton with ≤k focus units ranging over configuration × value (and any one unit over configuration × PostTransforms {none, one that changes the value, one that changes the value followed by a plain one} × value), run twice on the real code: Validate in place, and Parse of the value rendered as the map it would be decoded from into a fresh destination, under every field visit order; non-trivial = deviating case; distinct = distinct (skeleton, issue set)",
 		Floor: 50,
 		Bound: func(tier string) string {
 			k, e := coreK(tier)
 			return thoroughPrefix(tier) + fmt.Sprintf("k=%d focus units, %d skeletons, %d elements per slice, all visit orders", k, len(coreSkeletons(tier)), e)
 		},
-		Assumptions: []string{"toMap keys follow zog tag → schema key; leaves are presented with their native Go types", "schemas without Preprocess and without PostTransforms"},
+		Assumptions: []string{"toMap keys follow zog tag → schema key; leaves are presented with their native Go types", "schemas without Preprocess; PostTransforms never return errors (C12 covers those)"},
 		Items: func(tier string) []Item {
 			items := coreItems(tier, c13Scenario, func(a *Alpha) { a.Full = true }, []int{1}, 0)
+			// value-changing PostTransforms: any one unit over configuration × PostTransforms × value
+			for _, it := range coreItems(tier, c13Scenario, func(a *Alpha) { a.Full = true; a.MutPost = true }, []int{1}, 1) {
+				it.Name = "with-posts/" + it.Name
+				items = append(items, it)
+			}
 			// tagged destinations: the record skeleton with uniform zog tags (plain, and with a comma in the value)
 			for _, cfg := range []int{1, 6} {
 				fields := recordFields(false)
@@ -163,7 +168,7 @@ func init() {
 				ns := NamedSkel{Name: fmt.Sprintf("record/tags%d", cfg), S: sk}
 				units := skelUnits(sk, 2)
 				for _, fs := range focusSets(units, 1) {
-					a := &Alpha{Tier: tier, Mode: 1, Full: true}
+					a := &Alpha{Tier: tier, Mode: 1, Full: true, MutPost: true}
 					items = append(items, Item{Name: fmt.Sprintf("%s/{%s}", ns.Name, strings.Join(fs, ",")), Run: c13Scenario(a, ns, fs, 2), MaxDevs: -1})
 				}
 			}
